@@ -100,21 +100,30 @@ class PoolWorld(WorldBase):
         super().setup(log)
         import static_frame as sf
         self.sf = sf
-        from static_frame.core import node_iter, batch, store_zip
-        self.mods = (node_iter, batch, store_zip)
-        self.saved = [(m, getattr(m, 'ThreadPoolExecutor', None), getattr(m, 'ProcessPoolExecutor', None)) for m in self.mods]
-        for m in self.mods:
-            if hasattr(m, 'ThreadPoolExecutor'):
-                m.ThreadPoolExecutor = sx.SimThreadPoolExecutor
-            m.ProcessPoolExecutor = sx.SimProcessPoolExecutor
+        # the executor seam: every name in the package that is bound to a concurrent.futures executor class or to
+        # as_completed / wait is rebound to the simulated counterpart for the duration of the run
+        import sys
+        import concurrent.futures as cf
+        table = {cf.ThreadPoolExecutor: sx.SimThreadPoolExecutor, cf.ProcessPoolExecutor: sx.SimProcessPoolExecutor,
+                 cf.as_completed: sx.sim_as_completed, cf.wait: sx.sim_wait}
+        self.saved = []
+        for name, mod in sorted(sys.modules.items()):
+            if mod is None or not (name == 'static_frame' or name.startswith('static_frame.')):
+                continue
+            for attr, val in list(vars(mod).items()):
+                if not (isinstance(val, type) or callable(val)) or getattr(val, '__module__', '') is None \
+                        or not str(getattr(val, '__module__', '')).startswith('concurrent.futures'):
+                    continue
+                rep = table.get(val)
+                if rep is not None:
+                    self.saved.append((mod, attr, val))
+                    setattr(mod, attr, rep)
         self.dir = None
         self.nstates = 0
 
     def teardown(self):
-        for m, t, p in self.saved:
-            if t is not None:
-                m.ThreadPoolExecutor = t
-            m.ProcessPoolExecutor = p
+        for mod, attr, val in self.saved:
+            setattr(mod, attr, val)
         sx.CURRENT['sim'] = None
         if self.dir:
             shutil.rmtree(self.dir, ignore_errors=True)
